@@ -22,6 +22,7 @@ import (
 	"sort"
 	"strings"
 	"sync"
+	"time"
 
 	"0chain.net/chaincore/block"
 	cstate "0chain.net/chaincore/chain/state"
@@ -238,6 +239,7 @@ func c39() {
 	run.Bounds["seeds"] = "0..63"
 	run.Rule = "complete product: candidates 1..N x stake vectors x previous-set subsets x limits x percentages x seeds, each call made twice with the Go map filled in opposite orders; distinct = distinct (layout, set of selections over the seeds)"
 
+	t0 := time.Now()
 	var layouts []c39Layout
 	for n := 0; n <= maxN; n++ {
 		total := 1
@@ -268,9 +270,9 @@ func c39() {
 	}
 	var wg sync.WaitGroup
 	type viol struct {
-		order          int
-		key, what      string
-		replay         any
+		order     int
+		key, what string
+		replay    any
 	}
 	var mu sync.Mutex
 	var viols []viol
@@ -295,7 +297,10 @@ func c39() {
 		run.Violation(v.key, v.what, v.replay)
 	}
 
+	run.Extra["reduce_wall_s"] = time.Since(t0).Seconds()
+	t1 := time.Now()
 	c39Callers(run)
+	run.Extra["callers_wall_s"] = time.Since(t1).Seconds()
 
 	run.Assumptions = []string{
 		"'the required number of previous-set members' = min(previous members among the candidates, ceil(percentage * min(limit, candidates)))",
@@ -427,17 +432,42 @@ func c39Callers(run *ev.Run) {
 	stakes := []int{0, 1, 2}
 	msc := &minersc.MinerSmartContract{}
 	calls := 0
-	for sv := 0; sv < 81; sv++ {
-		st := make([]int, n)
-		x := sv
-		for i := 0; i < n; i++ {
-			st[i] = stakes[x%3]
-			x /= 3
+	for prev := 1; prev < 1<<n; prev++ {
+		miners, ids := mkPool(node.NodeTypeMiner, n, prev)
+		sharders, _ := mkPool(node.NodeTypeSharder, n, prev)
+		idx := map[string]int{}
+		for i, id := range ids {
+			idx[id] = i
 		}
-		for prev := 1; prev < 1<<n; prev++ {
-			for limit := 1; limit <= n+1; limit++ {
-				for _, xp := range []float64{0.25, 0.5, 1} {
-					for _, seed := range []int64{0, 1, 2, 3, 5, 8, 13, 21} {
+		toMask := func(got []string) int {
+			mk := 0
+			for _, id := range got {
+				i, ok := idx[id]
+				if !ok {
+					return -1
+				}
+				mk |= 1 << i
+			}
+			return mk
+		}
+		for _, seed := range []int64{0, 1, 2, 3, 5, 8, 13, 21} {
+			pmb := block.NewBlock("", 100)
+			pmb.RoundRandomSeed = seed
+			pmb.MagicBlock = block.NewMagicBlock()
+			pmb.MagicBlock.Miners = miners
+			pmb.MagicBlock.Sharders = sharders
+			mpt := util.NewMerklePatriciaTrie(util.NewLevelNodeDB(util.NewMemoryNodeDB(), util.NewMemoryNodeDB(), false), 1, nil, statecache.NewEmpty())
+			ctx := cstate.NewStateContext(block.NewBlock("", 101), mpt, &transaction.Transaction{}, nil,
+				func() *block.Block { return pmb }, nil, nil, nil, nil)
+			for sv := 0; sv < 81; sv++ {
+				st := make([]int, n)
+				x := sv
+				for i := 0; i < n; i++ {
+					st[i] = stakes[x%3]
+					x /= 3
+				}
+				for limit := 1; limit <= n+1; limit++ {
+					for _, xp := range []float64{0.25, 0.5, 1} {
 						l := c39Layout{n, st, prev, limit, xp}
 						m := limit
 						if n < m {
@@ -447,32 +477,7 @@ func c39Callers(run *ev.Run) {
 						if pc := popcount(prev); pc < q {
 							q = pc
 						}
-						miners, ids := mkPool(node.NodeTypeMiner, n, prev)
-						sharders, _ := mkPool(node.NodeTypeSharder, n, prev)
-						pmb := block.NewBlock("", 100)
-						pmb.RoundRandomSeed = seed
-						pmb.MagicBlock = block.NewMagicBlock()
-						pmb.MagicBlock.Miners = miners
-						pmb.MagicBlock.Sharders = sharders
-						mpt := util.NewMerklePatriciaTrie(util.NewLevelNodeDB(util.NewMemoryNodeDB(), util.NewMemoryNodeDB(), false), 1, nil, statecache.NewEmpty())
-						ctx := cstate.NewStateContext(block.NewBlock("", 101), mpt, &transaction.Transaction{}, nil,
-							func() *block.Block { return pmb }, nil, nil, nil, nil)
 						gn := &minersc.GlobalNode{MaxN: limit, MinN: 1, MaxS: limit, MinS: 1, XPercent: xp}
-						idx := map[string]int{}
-						for i, id := range ids {
-							idx[id] = i
-						}
-						toMask := func(got []string) int {
-							mk := 0
-							for _, id := range got {
-								i, ok := idx[id]
-								if !ok {
-									return -1
-								}
-								mk |= 1 << i
-							}
-							return mk
-						}
 						replay := map[string]any{"stakes": st, "previous_mask": prev, "limit": limit, "percent": xp, "seed": seed}
 
 						// reduceNodes(final=true)
@@ -481,7 +486,6 @@ func c39Callers(run *ev.Run) {
 						for i, id := range ids {
 							dkg.SimpleNodes[id] = c39SN(id, st[i])
 						}
-						// ids of real nodes are hashes; their order differs from a<b<c<d, so map through idx
 						if err := dkg.VerifStructsReduceNodes(true, gn, ctx); err != nil {
 							run.Violation("C39:reduceNodes:error", fmt.Sprintf("%v: %v", l, err), replay)
 						} else {
